@@ -251,6 +251,8 @@ func checkC14(c *Ctx) {
 	c.rule("C14.R2", "no function reachable from ParseMarkup writes a package-level variable; package-level variables it reads are never written after initialisation", 1)
 	c.rule("C14.R3", "every external callee reachable from ParseMarkup is in the reviewed table of state-free functions", 20)
 	c.rule("C14.R4", "the dialogue runner renders a line from the line's elements, the variable/function stores and the parser only: no other runner field is read or written while rendering, and the text handed to ParseMarkup is built in a local", 3)
+	c.rule("C14.R5", "what an element shows was parsed for it now: the parse result of every Line that Next builds is the result of rendering that statement's own elements on the same path (not a result kept from an earlier rendering)", 2)
+	c14Fresh(c)
 	mp := w.Pkg("markup")
 	lp := namedType(mp, "LineParser")
 	if lp == nil {
@@ -729,5 +731,56 @@ func c14R4WrittenOut(c *Ctx, m *runnerModel) {
 			c.ob("C14.R4", f.Name+"/parser-use", w.Pos(se.Pos()), okU, map[bool]string{true: "the runner's parser is used through ParseMarkup only", false: "the runner's line parser is used other than by calling ParseMarkup"}[okU])
 			return true
 		})
+	}
+}
+
+// c14Fresh: C14.R5. A parse result that is looked up instead of computed depends on whatever line was rendered when it was
+// stored. For every Line literal in Next: ParseResult expands (through locals assigned once) to the first result of the
+// rendering method applied to elements of the statement being shown, or to ParseMarkup of a builder's content.
+func c14Fresh(c *Ctx) {
+	w := c.W
+	m := w.runner()
+	if !m.ok(c, "C14.R5") {
+		return
+	}
+	info := m.pkg.TypesInfo
+	f := m.next
+	x := w.expander(f)
+	var renders []string
+	for _, rf := range w.FuncsWithParam(m.pkg, "[]*tree.LineFormattedTextElement") {
+		if rf.Decl != nil {
+			renders = append(renders, "."+rf.Decl.Name.Name+"(")
+		}
+	}
+	n := 0
+	walkNoLit(f.Body, func(q ast.Node) bool {
+		cl, ok := q.(*ast.CompositeLit)
+		if !ok {
+			return true
+		}
+		tv, ok := info.Types[cl]
+		if !ok || typeStr(tv.Type) != "ysgo.Line" {
+			return true
+		}
+		pr := litField(cl, "ParseResult")
+		if pr == nil {
+			return true
+		}
+		n++
+		s := x.str(pr)
+		okF := false
+		for _, r := range renders {
+			if strings.Contains(s, r) && strings.HasSuffix(s, ")#0") && strings.Contains(s, ".Text.Elements") {
+				okF = true
+			}
+		}
+		if strings.Contains(s, ".ParseMarkup(") && strings.HasSuffix(s, ".String())#0") {
+			okF = true
+		}
+		c.ob("C14.R5", f.Name+"/line-result#"+itoa(n), w.Pos(cl.Pos()), okF, map[bool]string{true: "the parse result shown is the one computed on this path (" + shorten(s, 90) + ")", false: "the parse result shown is " + shorten(s, 100) + ", which is not (only) the rendering computed on this path: a result kept from an earlier rendering — of this statement with other values, or of another line — would be shown"}[okF])
+		return true
+	})
+	if n == 0 {
+		c.undecided("C14.R5", "no Line literal with a ParseResult was found in Next")
 	}
 }
